@@ -19,7 +19,7 @@ World::World(const WorldContext& context, WorldId id):
 
 World::~World() {
     MUSTACHE_PROFILER_BLOCK_LVL_0("World::~World()");
-    used_world_ids.erase(id_);
+    used_world_ids.insert(id_); // hand the id back: nextWorldId() takes ids from this pool before growing next_id
 }
 
 void World::init() {
